@@ -121,6 +121,38 @@ fn enumerate_c04(cli: &Cli, r: &Report) {
             }
         }
     }
+    // Non-zero measurement overheads (subtracted from the *reported* sample durations only): the budget
+    // under skip_ext_time still counts the raw timed sections.
+    for n in [1u32, 3] {
+        for s in [1u32, 4] {
+            for min in [None, Some(7u64)] {
+                for max in [None, Some(4u64), Some(6)] {
+                    for skip in [Some(true), None] {
+                        for c in [400u64, u, 2 * u] {
+                            for overhead in [[300u64, 0, 0, 0], [900, 0, 0, 0], [100, 200, 100, 300]] {
+                                index += 1;
+                                if !cli.mine(index) {
+                                    continue;
+                                }
+                                let mut case = LoopCase::basic(4, 3, 3);
+                                case.sample_count = Some(n);
+                                case.sample_size = Some(s);
+                                case.min_time_ns = min;
+                                case.max_time_ns = max;
+                                case.skip_ext = skip;
+                                case.cost[SITE_CALL] = vec![c];
+                                case.cost[SITE_GEN] = vec![u];
+                                case.alloc[SITE_CALL] = 2;
+                                case.overhead_ps = overhead;
+                                case.horizon = 2 * 64 + 2;
+                                check(r, "C04", &case, index);
+                            }
+                        }
+                    }
+                }
+            }
+        }
+    }
     // The same rule while the sample size is still being tuned (sample_size unset): budgets that run out
     // in the middle of tuning, expensive generation / drops next to a cheap function.
     for n in [1u32, 2] {
